@@ -529,13 +529,13 @@ pub fn gen_input(rng: &mut Rng, corpus: &Corpus) -> Input {
         // dlt
         if rng.chance(1, 3) && !corpus.dlt.is_empty() {
             let (name, b) = rng.pick(&corpus.dlt);
-            let l = 200 + rng.usize_below(20000);
+            let l = if std::env::var("VMON_TINY").is_ok() { 100 + rng.usize_below(600) } else { 200 + rng.usize_below(20000) };
             let from = if b.len() > l { rng.usize_below(b.len() - l) } else { 0 };
             let mut bytes = b[from..(from + l).min(b.len())].to_vec();
             let m = mutate_bytes(rng, &mut bytes, None);
             Input { ext: "dlt", bytes, origin: format!("{}@{}", name, from), mutation: m }
         } else {
-            let n = 1 + rng.usize_below(60);
+            let n = 1 + rng.usize_below(if std::env::var("VMON_TINY").is_ok() { 5 } else { 60 });
             let t = gen_rich_trace(rng, n);
             let mut bytes = t.bytes.clone();
             let m = if rng.chance(1, 10) { "none".to_string() } else { mutate_bytes(rng, &mut bytes, Some(&t)) };
@@ -729,14 +729,15 @@ pub fn run_chain(inp: &Input, allow_save: bool) -> ChainResult {
         let mut eac = EacStats::new();
         let mut plugins: Vec<Box<dyn Plugin + Send>> = Vec::new();
         let ft = json!({"name":"FileTransfer","allowSave":allow_save,"keepFLDA":!allow_save});
-        for cfg in [
-            ft,
+        let tiny = std::env::var("VMON_TINY").is_ok();
+        for cfg in if tiny { vec![ft.clone()] } else { vec![
+            ft.clone(),
             json!({"name":"NonVerbose","fibexDir":"/repo/tests/"}),
             json!({"name":"SomeIp","fibexDir":"/repo/tests/"}),
             json!({"name":"CAN","fibexDir":"/repo/tests/"}),
             json!({"name":"Muniic","jsonDir":"/repo/tests/muniic"}),
             serde_json::from_str(&std::fs::read_to_string("/repo/tests/rewrite.cfg").unwrap_or_default()).unwrap_or(json!({"name":"Rewrite","rewrites":[]})),
-        ] {
+        ] } {
             if let Some(p) = get_plugin(cfg.as_object().unwrap(), &mut eac) {
                 plugins.push(p);
             }
@@ -772,7 +773,8 @@ pub fn case_input(p: &Params, i: u64, corpus: &Corpus) -> Input {
 fn worker(p: &Params) -> Report {
     let mut rep = Report::new("C03");
     rep.max_violations = 40;
-    let corpus = load_corpus();
+    let tiny = std::env::var("VMON_TINY").is_ok();
+    let corpus = if tiny { Corpus { dlt: vec![], asc: vec![], txt: vec![], log: vec![] } } else { load_corpus() };
     let from: u64 = p.val("from").and_then(|v| v.parse().ok()).unwrap_or(0);
     let count: u64 = p.val("count").and_then(|v| v.parse().ok()).unwrap_or(1000);
     let only = p.val("only").is_some();
@@ -784,11 +786,14 @@ fn worker(p: &Params) -> Report {
         let t = gen_rich_trace(&mut rng, 3);
         Input { ext: "dlt", bytes: t.bytes, origin: "baseline".into(), mutation: "none".into() }
     };
-    let b1 = run_chain(&one, true).max_alloc;
+    let b1 = if tiny { b0 } else { run_chain(&one, true).max_alloc };
     let baseline = b0.max(b1);
     rep.max("baseline_largest_allocation", baseline as u64);
     let stdout = std::io::stdout();
     for i in from..from + count {
+        if p.time_up() {
+            break;
+        }
         {
             let mut o = stdout.lock();
             let _ = writeln!(o, "P {}", i);
@@ -835,7 +840,7 @@ enum ChildEnd {
 fn run_child(p: &Params, from: u64, count: u64, only: bool, out: &str, stall_secs: u64) -> ChildEnd {
     let exe = std::env::current_exe().expect("current exe");
     let mut cmd = std::process::Command::new(exe);
-    cmd.arg("c03").arg("--seed").arg(p.seed.to_string()).arg("--shard").arg(p.shard.to_string()).arg("--of").arg(p.of.to_string()).arg("--tier").arg(if p.thorough { "thorough" } else { "quick" }).arg("--out").arg(out).arg("worker=1").arg(format!("from={}", from)).arg(format!("count={}", count));
+    cmd.arg("c03").arg("--seed").arg(p.seed.to_string()).arg("--shard").arg(p.shard.to_string()).arg("--of").arg(p.of.to_string()).arg("--tier").arg(if p.thorough { "thorough" } else { "quick" }).arg("--secs").arg("1000000").arg("--out").arg(out).arg("worker=1").arg(format!("from={}", from)).arg(format!("count={}", count));
     if only {
         cmd.arg("only=1");
     }
